@@ -96,6 +96,7 @@ def plan(tier, seed):
         specs.append({"kind": "classes", "count": 500 if q else 5000})
     specs.append({"kind": "grey_classes", "count": 150 if q else 3000})
     specs.append({"kind": "mappings"})
+    specs.append({"kind": "each_state", "reps": 3 if q else 40})
     return specs
 
 
@@ -243,6 +244,37 @@ def run_hostile_json(spec, rec, lib):
             judge(dotted, [e, [K0.hex], 1, False], rec, lib, "hostile-envelope")
 
 
+def run_each_state(spec, rec, lib):
+    """every kind of non-counting entry the generators know, once per mode and several times over, as the ONE entry that would
+    complete the threshold: the call raises a signature error - it neither returns nor raises anything else"""
+    from ..gen import entries as gentries
+
+    rng = random.Random(spec["seed"])
+    n = 0
+    for rep in range(spec.get("reps", 3)):
+        for gpg in (False, True):
+            for st in gentries.invalid_states(gpg):
+                case = envelope.gen_case(rng, gpg=gpg, stratum="sole:shape", force_state=st)
+                if case.get("stratum") != "sole:shape":
+                    case = envelope.gen_case(rng, gpg=gpg, stratum="sole:shape", force_state=st)
+                model, out, _m, _s = envelope.evaluate(case, lib)
+                n += 1
+                rec.case("each_state|%s|%s" % (gpg, st))
+                rec.hist("each_state_model", model.v)
+                if model.v != models.REJECT:
+                    continue
+                if out.accepted:
+                    rec.violation("fail-open/authentication.verify_signable/expected=SignatureError/observed=return/entry-state=" + st,
+                                  "an envelope one signer short, whose remaining entry is %r, was accepted" % st, case)
+                elif out.family not in boundary.DOCUMENTED:
+                    rec.violation(boundary.mechanism("undocumented-error", "authentication.verify_signable", "documented-family", out),
+                                  "entry state %s: raised %s" % (st, out.cls), case)
+                elif model.error == "SignatureError" and out.family != "SignatureError":
+                    rec.violation(boundary.mechanism("error-class", "authentication.verify_signable", "SignatureError", out),
+                                  "entry state %s: too few valid signatures reported as %s" % (st, out.cls), case)
+    rec.count("each_invalid_entry_state_runs", n)
+
+
 def run_classes(spec, rec, lib):
     """single-cause rejections carry the documented class"""
     rng = random.Random(spec["seed"])
@@ -342,6 +374,8 @@ def run_grey_classes(spec, rec, lib):
 
 
 def run_shard(spec, rec, lib):
+    if spec.get("kind") == "each_state":
+        return run_each_state(spec, rec, lib)
     if spec.get("kind") == "mappings":
         return run_mappings(spec, rec, lib)
     if spec["kind"] == "grey_classes":
